@@ -9,6 +9,8 @@ TB = ("Trusted base: the executable reference model and format interpreters unde
 
 FILE_TECH = "session simulation at the stream seams: generated files and history-made charts through read_file/write_file on a simulated file system (real io/codecs layers over a stub device: tiny buffers, short counts, platform defaults, stale destination, EIO/ENOSPC/close errors placed inside the op, retry after failure), judged by an independent reference interpreter of the format; write/read generation chains"
 CLAIMED = {
+ "C07": (FILE_TECH,
+         "Generated OJN byte strings (300-byte header; three difficulties; note packages on all seven columns with 1..192 slots; long notes spanning packages and measures; 0..6 tempo events at any measure position, also after the last note; auto-play channels that are not notes; empty difficulties) are installed and read through short binary reads, several files per session (the reader threads a long-note buffer through the levels). Every note, long-note end and tempo change must sit at the millisecond position of exact rational integration over the header tempo and all tempo events before it, in the right column, heads paired with tails, and the header fields must be decoded as laid out; injected read errors may only make the call raise.", "§5 C07"),
  "C04": (FILE_TECH,
          "Generated BMS/BME/PMS texts for each of the five layouts (shift_jis headers with double-byte characters whose trail byte is 0x5C/0x7C, #WAV / #BPMxx tables, data lines in shuffled order, several lines for one measure and channel, subdivisions 1..192 incl. 5ths/7ths/9ths, channel-03 and channel-08 tempo changes, #LNOBJ long notes, ignored channels, CRLF/LF) are installed and read through codecs.StreamReader over tiny buffers and short reads. Every visible object must become a hit - or, when closed by the #LNOBJ marker, a hold whose head is the preceding object of that lane in time - in the lane's column at the millisecond position of exact rational integration, with the #WAV sample of its id; title, artist, level, #LNOBJ, extended tempos, samples and other headers must be retained. Injected read errors may only make the call raise.", "§5 C04"),
  "C05": (FILE_TECH,
